@@ -81,7 +81,7 @@ var props = []Prop{
 		ID: "C06",
 		Harnesses: []H{{Pkg: "ecs", Fn: "HC06_TargetDeath"}, {Pkg: "ecs", Fn: "HC06_TargetDeath", Tags: "tiny", Tier: "thorough"}},
 		Conform: stdConform,
-		Bounds:  "8 prefixes (two parents with children, dead target with non-empty table, retired table, two relation types, dead target with re-issued id, self-targeting entity, alive parent with active-but-empty child table, Reset over populated relation tables followed by new parents) x 1 (thorough: 2) symbolic operations out of RemoveEntity(any alive), Batch.RemoveEntities (All / mask / relation filter with any target), creation of a child (ids only or with values) for zero or any alive parent, Relations.Set, Reset, batch SetRelation; after every step the structural invariant (free list without duplicates, target map = active tables, storage beyond len zero, retired tables empty and zeroed), at the end all observables vs the model incl. zero-initialised components and relation queries for every target; 3 configurations (thorough 6)",
+		Bounds:  "8 prefixes (two parents with children, dead target with non-empty table, retired table, two relation types, dead target with re-issued id, self-targeting entity, alive parent with active-but-empty child table, Reset over populated relation tables followed by new parents) x 1 (thorough: 2) symbolic operations out of RemoveEntity(any alive), Batch.RemoveEntities (All / mask / relation filter with any target), creation of a child (ids only or with values) for zero or any alive parent, Relations.Set, Reset, batch SetRelation, batch add/remove of other components through mask and relation filters; after every step the structural invariant (free list without duplicates, target map = active tables, storage beyond len zero, retired tables empty and zeroed), at the end all observables vs the model incl. zero-initialised components and relation queries for every target; 3 configurations (thorough 6)",
 		Outside: "more than 2 operations after the prefix; more than 10 entities",
 	},
 	{
